@@ -64,6 +64,12 @@ func VerifC14Fill(kind, n int) {
 	// length and :end nil are rejected although valid
 	vrt.Carve("C14-valid-args-rejected", c.endMode == 1 ||
 		(cls == zzC14BValid && (s == int64(n) || (c.endMode == 2 && e == int64(n)))))
+	// what remains of C14-valid-args-rejected after its repair (nil as the
+	// sequence and :end nil are accepted now): the existing tests pin that
+	// start = length and an explicit end = length are errors, which also
+	// rejects every call on an empty string or vector
+	vrt.Carve("C14-fill-bounds-equal-length", cls == zzC14BValid && !(kind == zzC14List && n == 0) &&
+		(s == int64(n) || (c.endMode == 2 && e == int64(n))))
 	form := slip.List{slip.Symbol("fill"), zzC14Quote(zzC14Seq(kind, c.vals)), c.itemObj()}
 	form = append(form, c.keywords()...)
 	out := zzC14Eval(slip.NewScope(), form)
